@@ -179,6 +179,8 @@ class AtomTable:
             if fn == fname and len(aa) == len(args) and all(
                 _arg_eq(x, y) for x, y in zip(aa, args)
             ):
+                if sign is not None and self.atoms[nm].sign is None:
+                    self.atoms[nm].sign = sign
                 return Rat.atom(self, nm)
         nm = f"{fname}#{len(self._apps)}({', '.join(str(a) for a in args)})"
         self._apps.append((fname, args, nm))
